@@ -321,3 +321,123 @@ def block_geometry_rules(ck, P, rule="R-BLOCK-GEOM"):
         okp = bool(cn) and A.eq(A.ev(cn[0]["a"][0], env), qx) and A.eq(A.ev(cn[0]["a"][1], env), qy) and A.eq(A.ev(cn[0]["a"][2], env), F("level"))
         ck.check(okp, rule, "writer|position", "writer: block position = (x_min / 256, y_min / 256, level)", "writer: block position is not (x_min / 256, y_min / 256, level)", ir.loc(b))
     ck.check(ok, rule, "writer|local-box", "writer: local box = global box - 256 * block position, per axis", "writer: %s" % why, ir.loc(b))
+
+
+def _resolve_const_calls(P, t):
+    """replace ("fn", name) atoms of zero-argument functions whose body is one integer literal (HeaderV3::len()) by the literal"""
+    from . import affine as A
+    from . import boxalg
+    if t is A.TOP:
+        return t
+    m = {}
+    for mono in t:
+        for a in mono:
+            if a[0] == "fn" and len(a) == 2:
+                cands = [b for b in P.bodies if b["q"].endswith("::" + a[1]) and not [p for p in b.get("params", ())]]
+                vals = set()
+                for b in cands:
+                    e = ir.unparen(ir.fn_block(b))
+                    e = ir.unparen(e)
+                    c = ir.const_eval(e, {}) if e is not None else None
+                    if c is not None:
+                        vals.add(c)
+                if len(vals) == 1 and len(cands) >= 1:
+                    m[a] = A.const(vals.pop())
+    if not m:
+        return t
+    out = {}
+    for mono, c in t.items():
+        term = {(): c}
+        for a in mono:
+            term = A.mul(term, m.get(a, A.atom(a)))
+        out = A.add(out, term)
+    return out
+
+
+def pm_layout_rules(ck, P, rule="R-PM-LAYOUT"):
+    """PMTiles writer: the sections of the file do not overlap.  The root directory is written LAST into the gap between the
+    header and the first appended section, so
+        (a) position of the root  >=  length of the header,
+        (b) position of the root + the size limit handed to the directory builder  <=  position of the first appended section,
+        (c) the directory builder returns only when the serialised root is within the limit it was given.
+    Positions and limits are terms (affine.py); (a) and (b) are decided on their difference, which must be a known constant."""
+    from . import affine as A
+    from . import census
+    w = None
+    for i in P.impls_of("::TilesWriterTrait"):
+        if i.get("self_adt", "").endswith("::PMTilesWriter"):
+            w = P.impl_method(i, "write_to_writer", inline=False) if "inline" in P.impl_method.__code__.co_varnames else P.impl_method(i, "write_to_writer")
+    ad = [b for b in P.bodies if b["q"].endswith("entries_v3::EntriesV3::as_directory")]
+    if not ck.anchor(rule, "PMTilesWriter::write_to_writer + EntriesV3::as_directory", ([w] if w else []) + ad, 2):
+        return
+    blk = ir.fn_block(w)
+    env = A.Env()
+    seq = []          # ("pos", term, node) | ("append", arg, node) | ("dir", limit term, node, bound local hid)
+
+    def scan(stmts):
+        for st in stmts:
+            x = st["e"] if st.get("k") == "semi" else st
+            for y in ir.walk_nodes(x):
+                if y.get("k") == "mcall" and (y.get("q") or "").endswith("DataWriterTrait::set_position") and y.get("a"):
+                    seq.append(("pos", _resolve_const_calls(P, A.ev(y["a"][0], env)), y))
+                elif y.get("k") == "mcall" and (y.get("q") or "").endswith("DataWriterTrait::append") and y.get("a"):
+                    seq.append(("append", y["a"][0], y))
+                elif y.get("k") == "mcall" and (y.get("q") or "").endswith("EntriesV3::as_directory") and y.get("a"):
+                    seq.append(("dir", _resolve_const_calls(P, A.ev(y["a"][0], env)), y))
+                elif y.get("k") == "mcall" and (y.get("q") or "").endswith("DataWriterTrait::write_start"):
+                    seq.append(("start", None, y))
+            A.run([st], env)
+    scan(ir.stmts_of(blk))
+    kinds = [s[0] for s in seq]
+    key = w["q"]
+    pos = [s for s in seq if s[0] == "pos"]
+    dirs = [s for s in seq if s[0] == "dir"]
+    if not ck.check(len(dirs) == 1 and len(pos) >= 2 and kinds and kinds[0] == "pos", rule, key + "|shape",
+                    "the writer first seeks past the reserved area, builds one directory and seeks back for the root (%s)" % kinds,
+                    "unexpected sequence of position/append calls %s" % kinds, ir.loc(w)):
+        return
+    first = pos[0][1]
+    # the root position: the set_position that is followed by the append of `.root_bytes`
+    root_pos = None
+    for i, s in enumerate(seq):
+        if s[0] == "append" and ir.contains(s[1], lambda y: y.get("k") == "field" and y.get("name") == "root_bytes"):
+            prev = [t for t in seq[:i] if t[0] == "pos"]
+            root_pos = prev[-1][1] if prev else None
+            between = [t[0] for t in seq[seq.index(prev[-1]) + 1:i]] if prev else ["?"]
+            if "append" in between:
+                root_pos = None
+    if not ck.check(root_pos is not None, rule, key + "|root-position", "the root directory is appended right after a seek", "the root directory is not written at an explicit position", ir.loc(w)):
+        return
+    limit = dirs[0][1]
+    hdr = [b for b in P.bodies if b["q"].endswith("header_v3::HeaderV3::len")]
+    hlen = _resolve_const_calls(P, A.atom(("fn", "len"))) if hdr else A.TOP
+    hl = ir.const_eval(ir.unparen(ir.unparen(ir.fn_block(hdr[0]))), {}) if hdr else None
+    hlen = A.const(hl) if hl is not None else A.TOP
+    da = A.as_const(A.sub(root_pos, hlen)) if hlen is not A.TOP else None
+    ck.check(da is not None and da >= 0, rule, key + "|root-after-header", "the root directory starts at or after the end of the %s-byte header (position %s)" % (hl, A.show(root_pos)),
+             "the root directory is written at %s, which is not provably at or behind the %s-byte header" % (A.show(root_pos), hl), ir.loc(w))
+    db = A.as_const(A.sub(first, A.add(root_pos, limit)))
+    ck.check(db is not None and db >= 0, rule, key + "|root-fits", "root position + root size limit <= first appended section (%s + %s <= %s)" % (A.show(root_pos), A.show(limit), A.show(first)),
+             "the root directory may be up to %s bytes long at position %s, but the next section (metadata) already starts at %s: a root directory close to the limit overwrites the start of the metadata" % (
+                 A.show(limit), A.show(root_pos), A.show(first)), ir.loc(dirs[0][2]))
+    # (c) the builder honours its limit
+    b = ad[0]
+    lim_p = [p for p in b.get("params", ()) if p.get("k") == "bind" and p.get("name") != "self"]
+    lim_name = lim_p[0]["name"] if lim_p else None
+    rets = census.nodes_with_facts(ir.fn_block(b), lambda n: n.get("k") == "ret")
+    tail = ir.fn_block(b).get("tail")
+    bad = []
+    n_ok = 0
+    for n, facts in rets:
+        e = n.get("e")
+        if e is None or not ir.contains(e, lambda y: y.get("k") == "call" and (y.get("q") or "").endswith("Ok::{Ctor#0}")):
+            continue
+        okf = any(f[0] == "cmp" and lim_name is not None and ((f[3] == lim_name and f[2] in ("<=", "<") and f[1].endswith("root_bytes.len()")) or
+                                                                  (f[1] == lim_name and f[2] in (">=", ">") and f[3].endswith("root_bytes.len()"))) for f in facts)
+        if okf:
+            n_ok += 1
+        else:
+            bad.append(ir.loc(n))
+    tail_ok = tail is None or tail.get("k") in ("loop",) or not ir.contains(tail, lambda y: y.get("k") == "call" and (y.get("q") or "").endswith("Ok::{Ctor#0}"))
+    ck.check(n_ok >= 1 and not bad and tail_ok, rule, b["q"] + "|limit-honoured", "every successful return of as_directory is dominated by root_bytes.len() <= %s (%d returns)" % (lim_name, n_ok),
+             "as_directory can return a root directory without having compared its length with the limit (%s)" % (bad or "value returned at the end of the function"), ir.loc(b))
